@@ -276,6 +276,11 @@ def stable_point(tree, vals, dv):
         v = try_eval(eval_n, sub, vals, dv)
         if v is not None and not isinstance(v, bool) and abs(v) > 1e9:
             return False          # huge intermediate values: Mod / tan / differences lose all precision
+        if sub[0] == 9:           # a relation between (nearly) equal sides is decided by rounding: x**3 > (x**2)**1.5
+            va, vb = try_eval(eval_n, sub[2], vals, dv), try_eval(eval_n, sub[3], vals, dv)
+            if va is not None and vb is not None and not isinstance(va, bool) and not isinstance(vb, bool) \
+                    and math.isclose(va, vb, rel_tol=1e-7, abs_tol=1e-12):
+                return False
     for eps in (1e-9, -1e-9):
         def pert(t, vs, d, eps=eps):
             return _guarded(t, lambda v: vs[v] * (1 + eps), lambda i, q, u: qvalue(i, q) * (1 + eps), d)
